@@ -165,7 +165,7 @@ def one_library(ctx, g, space, tag, scale):
     sz = core.gcc_run(L.layout_probe(lib), plan["dir"], "layout")
     layout_ref = [int(x) for x in sz.split()]
     names_ref = L.names(lib)
-    b = G.Builder(ctx.rng, cls, vcls, exclude=("list_short",))
+    b = G.Builder(ctx.rng, cls, vcls)
     # ---- part A: the call family on the three builds
     cases, meta = [], {}
     cid = 0
@@ -239,8 +239,7 @@ def run(ctx):
                        "on the three builds; every behaviour has >= 10 events on >= 2 globals")
     ctx.cov["exhaustive"] = False
     ctx.assumptions += [
-        "struct arguments given as partial initializers (C13 finding) are not generated here; at most one "
-        "argument of a call is unconvertible (which of two errors is reported first is not constrained)",
+        "at most one argument of a call is unconvertible (which of two errors is reported first is not constrained)",
         "sizeof/offsetof reference = gcc on this platform; dir(lib) must list exactly the declared names",
         "the three builds are separate shared objects, each with its own copy of the globals"]
 
@@ -308,8 +307,7 @@ META = {
             "trace and call record against the machine / Outcome at Base 256; exposed names and the layout of a "
             "partially declared struct are compared with the declaration and gcc.",
     "note": "Trusted: gcc, setuptools, TLC. Few libraries per run (verify() compiles through setuptools); features "
-            "verify() does not support (extern \"Python\", embedding) are outside; partial struct initializers are "
-            "excluded (C13 finding).",
+            "verify() does not support (extern \"Python\", embedding) are outside;",
     "technique": "TLA+ machine (TLC exhaustive small graph) + replay of its walks on three real builds + TLC "
                  "validation of recorded traces and calls",
     "design_ref": "DESIGN.md §3 C33",
